@@ -60,9 +60,15 @@ type tcpConnectionActor struct {
 }
 
 func (c *tcpConnectionActor) OnReceive(ctx vivid.ActorContext) {
-	switch ctx.Message().(type) {
+	switch m := ctx.Message().(type) {
 	case *vivid.OnLaunch:
 		c.onLaunch(ctx)
+	case *vivid.OnKilled:
+		// 连接 Actor 自身终止时关闭底层套接字：读取端一旦消失（对端关闭握手、非法帧长、监督停止等），
+		// 对端的后续写入必须立即失败，否则这些帧会被内核缓冲区接收后无人读取，既不会送达也不会被报告
+		if m.Ref.Equals(ctx.Ref()) {
+			_ = c.conn.Close()
+		}
 	case net.Conn:
 		// 消息读取失败仅作回调，不影响连接的正常使用
 		// 假设连接需要关闭，内部会自动关闭连接
